@@ -2,7 +2,13 @@ package props
 
 import (
 	"fmt"
+	"strings"
 	"testing"
+
+	"github.com/goghcrow/yae"
+	"github.com/goghcrow/yae/conv"
+	"github.com/goghcrow/yae/val"
+	"pgregory.net/rapid"
 
 	"verif/gen"
 	m "verif/model"
@@ -133,9 +139,164 @@ var c01opt = gen.ProgOpt{Fuel: 4, Partial: false, Sugar: true, NonFinite: true, 
 var c01 = Register(&Prop[ProgCase]{ID: "C01", Name: "preservation", Gen: genProgCase(c01opt, run.StdHarness), Check: checkC01})
 
 func TestC01(t *testing.T) {
-	R.Rule = "well-typed programs over literals, variables, lists, maps, objects, member / subscript access, overloaded and polymorphic calls; every object occurrence (literal elements, conditional arms, typing environment, run-time values) written in an independently drawn field order; four back ends; oracle: inferred type = reference type and checked walk of every produced value (tag of every component equals the declared component type, no nil component, map entries under the key their text denotes); non-trivial = a value was produced, the program has a composite result or a member/subscript access, and one object type occurs in two field orders or a polymorphic / overloaded call is present"
+	R.Rule = "well-typed programs over literals, variables, lists, maps, objects, member / subscript access, overloaded and polymorphic calls; every object occurrence (literal elements, conditional arms, typing environment, run-time values) written in an independently drawn field order; four back ends; plus member / subscript paths into reflect-built Go host values (two values of one Go type in a row), whose results must be well-formed values of the type inferred against that host data; oracle: inferred type = reference type and checked walk of every produced value (tag of every component equals the declared component type, no nil component, map entries under the key their text denotes); non-trivial = a value was produced, the program has a composite result or a member/subscript access, and one object type occurs in two field orders or a polymorphic / overloaded call is present"
 	R.Assume = []string{"ref.Check encodes the typing rules of C05's statement"}
 	reportKnown(t, "C01")
 	runRegress(t, "C01")
 	c01.Run(t, budget(6000, 320000))
+	c01host.Run(t, budget(2500, 160000))
 }
+
+// ---- preservation over host data: values supplied by Go structs / slices / maps
+
+// hostPaths lists access expressions into a host value (member, subscript),
+// rooted at the fields of the top-level struct.
+func hostPaths(h *H) []string {
+	var out []string
+	var walk func(x *H, expr string, depth int)
+	walk = func(x *H, expr string, depth int) {
+		for x != nil && (x.K == "ptr" || x.K == "iface") {
+			if x.Nil {
+				if expr != "" {
+					out = append(out, expr)
+				}
+				return
+			}
+			x = x.Elem
+		}
+		if x == nil || depth > 4 {
+			return
+		}
+		if expr != "" {
+			out = append(out, expr)
+		}
+		switch x.K {
+		case "struct":
+			for i, f := range x.Fields {
+				name, _ := parseTag(f)
+				if !okIdent(name) {
+					continue
+				}
+				e := name
+				if expr != "" {
+					e = expr + "." + name
+				}
+				it := x.Items[i]
+				if _, maybe := parseTag(f); maybe || (nilable(it) && it.Nil) {
+					// optional: only get(…, default) may consume it; the path ends here
+					out = append(out, e)
+					continue
+				}
+				walk(it, e, depth+1)
+			}
+		case "slice", "array":
+			if x.K == "slice" && x.Nil {
+				return
+			}
+			for i := range x.Items {
+				if i > 2 || expr == "" {
+					break
+				}
+				walk(x.Items[i], fmt.Sprintf("%s[%d]", expr, i), depth+1)
+			}
+		case "map":
+			if x.Nil || expr == "" {
+				return
+			}
+			for i, k := range x.Keys {
+				if i > 1 || k.K != "string" || !validLitString(k.S) {
+					break
+				}
+				walk(x.Items[i], expr+"["+gen.StrLitText(k.S, false, false)+"]", depth+1)
+			}
+		}
+	}
+	walk(h, "", 0)
+	return out
+}
+
+func validLitString(s string) bool {
+	for _, r := range s {
+		if r == 0xFFFD {
+			return false
+		}
+	}
+	return true
+}
+
+func genHostEnvCase(t *rapid.T) *HostCase {
+	g := &hostGen{t: t}
+	top := &H{K: "struct"}
+	n := rapid.IntRange(1, 3).Draw(t, "nfields")
+	names := []string{"u", "items", "cfg"}
+	for i := 0; i < n; i++ {
+		top.Fields = append(top.Fields, HF{Go: goFieldNames[i], Tag: fmt.Sprintf(`yae:"%s"`, names[i])})
+		top.Items = append(top.Items, g.typ(rapid.IntRange(1, 3).Draw(t, "fdepth")))
+	}
+	c := &HostCase{V1: g.fill(top, true)}
+	c.V2 = g.fill(typeWitness(c.V1), true)
+	return c
+}
+
+func checkHostPreservation(c *HostCase) *Outcome {
+	checked, produced := 0, 0
+	for _, hv := range []*H{c.V1, c.V2} {
+		if hv == nil {
+			continue
+		}
+		var goV interface{}
+		if p := run.Guard(func() { goV = hv.goValue().Interface() }); p != nil {
+			return skip("harness:host-value-not-constructible")
+		}
+		tenv, terr := conv.TypeEnvOf(goV)
+		if terr != nil {
+			continue // unsupported / inconsistent data: C15's subject
+		}
+		for _, path := range hostPaths(hv) {
+			ty, ierr, ip := run.InferTypeEnv(path, tenv)
+			if ip != nil {
+				return bad("type checking %q over host data panicked: %s", path, ip.Text)
+			}
+			if ierr != nil {
+				continue // e.g. a path through data the checker types differently; nothing is produced
+			}
+			checked++
+			for _, closureBE := range []bool{false, true} {
+				e := yae.NewExpr()
+				if closureBE {
+					e.UseClosureCompiler()
+				}
+				var v *val.Val
+				var err error
+				p := run.Guard(func() {
+					var cl yae.Callable
+					cl, err = e.Compile(path, goV)
+					if err == nil {
+						v, err = cl(goV)
+					}
+				})
+				if p != nil {
+					return bad("evaluating %q over host data panicked: %s (%#v)", path, p.Text, goV)
+				}
+				if err != nil {
+					continue
+				}
+				produced++
+				if _, probs := run.FromYaeVal(v, ty); len(probs) > 0 {
+					if strings.Contains(strings.Join(probs, " "), "two entries denote the same key @") && excludedFamily("equal-instants-different-zones") {
+						// F12 (open): a Go map keyed by one instant in two zones becomes two entries
+						return skip("known:equal-instants-different-zones")
+					}
+					d := fmt.Sprintf("%#v", goV)
+					if len(d) > 600 {
+						d = d[:600] + "..."
+					}
+					return bad("%q is accepted with inferred type %s over host data, but the value it produces is not a well-formed value of that type: %v\n host data: %s", path, ty, probs, d)
+				}
+			}
+		}
+	}
+	return ok(produced > 0 && checked >= 2, "host-data-paths")
+}
+
+var c01host = Register(&Prop[HostCase]{ID: "C01", Name: "host-data-preservation", Gen: genHostEnvCase, Check: checkHostPreservation})
